@@ -128,6 +128,11 @@ class Ctx:
             return None
 
     def end_of_run(self):
+        if not getattr(self, "_hygiene_done", False):
+            self._hygiene_done = True
+            from . import hygiene
+
+            hygiene.after_run(self)
         if self.shortfalls and not any(o.status == "violation" for o in self.obs):
             raise AnalysisError("; ".join(self.shortfalls))
 
